@@ -585,13 +585,15 @@ def check(run, db, tier):
     run.group(c07.compose_rules, Proxy(run, {'C07.compose': 'C09.id'}), db)
     from . import fixedorders
     run.group(fixedorders.fixed_order_rules, run, db, 'C09.id', None, lambda q: '_der_seq' in q)
-    run.group(seed_rules, run, db)
+    from . import clenshawfixed as CF
+    run.group(CF.decided, run, db)
+    run.group(CF.with_fallback(seed_rules, ('jacobi_sum_clenshaw_der', 'compute_z_zprime_Qbfs', 'compute_z_zprime_Qcon', 'compute_z_zprime_Q2d'), 'C09.seed', 9), run, db)
     run.group(rule_rules, run, db)
     run.group(offaxis_rules, run, db)
     run.group(more_rules, run, db)
     from . import c10
     run.group(c10.mirror_rules, Proxy(run, {'C10.sym': 'C09.rule'}), db)
-    run.group(c10.assembly_rules, Proxy(run, {'C10.assembly': 'C09.rule'}), db)
+    run.group(CF.with_fallback(c10.assembly_rules, ('clenshaw_qbfs', 'compute_z_zprime_Qbfs', 'compute_z_zprime_Qcon', 'compute_z_zprime_Q2d'), 'C10.assembly', 0), Proxy(run, {'C10.assembly': 'C09.rule'}), db)
     run.require_instances('C09.id', 40)
     run.require_instances('C09.seed', 9)
     run.require_instances('C09.rule', 20)
